@@ -26,6 +26,17 @@ macro_rules! assert_ne {
     ($a:expr, $b:expr, $($arg:tt)+) => { if $a == $b { controlled_panic() } };
 }
 
+// debug assertions do not exist in release builds: verified as absent (the worst case)
+macro_rules! debug_assert {
+    ($($arg:tt)*) => { () };
+}
+macro_rules! debug_assert_eq {
+    ($($arg:tt)*) => { () };
+}
+macro_rules! debug_assert_ne {
+    ($($arg:tt)*) => { () };
+}
+
 verus! {
 
 global size_of usize == 8;
